@@ -208,6 +208,7 @@ def _db_level(ctx, prog):
     cb_sites = [(b, t) for b, t in ap.calls() if (t.get("callee") or "") in (
         "core::ops::function::Fn::call", "core::ops::function::FnMut::call_mut", "core::ops::function::FnOnce::call_once")]
     covered = {}
+    site_flds = {}
     for b, t in cb_sites:
         # the handle passed: tuple arg (&mut b,) ; b originates from getter(...).unwrap()
         os_ = origins(prog, ap, t["args"][1], at=b)
@@ -233,6 +234,7 @@ def _db_level(ctx, prog):
                         if p_.startswith("f:") and p_.rsplit(".", 1)[0].endswith("FileDbInner"):
                             flds.add(p_.rsplit(".", 1)[1])
         fate = result_fate(prog, ap, t["dest"]["l"]) if t["dest"]["l"] != 0 else {"returned"}
+        site_flds[b] = flds
         for f in flds:
             covered.setdefault(f, []).append((b, fate))
     for r in regs:
@@ -241,6 +243,9 @@ def _db_level(ctx, prog):
         for b, fate in covered.get(r, []):
             ctx.check(fate <= {"try", "returned", "match-returned"}, "db-sync-result", r,
                       "the result of syncing a map of registry `%s` is %s, not propagated" % (r, sorted(fate)), where=where(ap, b))
+    # every registered map is visited on every successful call: a loop round always invokes the callback, and the loop
+    # body has no successful exit of its own (only the iterator's `None` leaves a loop)
+    _visits_every_map(ctx, prog, ap, cb_sites, site_flds)
     # the two database-level methods pass a closure calling the same-named trait method
     for m in ("sync_all", "sync_data"):
         fs = prog.find(name=m, self_adt=FILEDBINNER)
@@ -257,10 +262,49 @@ def _db_level(ctx, prog):
                     names.add(callee_name(t))
         ctx.check(bool(calls_ap) and names == {m}, "db-sync-method", m,
                   "FileDbInner::%s applies %s to every map instead of exactly {%s}" % (m, sorted(names), m), where=where(f))
+        # ... on every successful path: sync_* also asks the OS to sync files that are not dirty, so there is no
+        # "nothing to do" exit
+        ctx.check(bool(calls_ap) and not f.success_reach_return(0, [b for b, _ in calls_ap]), "db-sync-method", m + ":always",
+                  "FileDbInner::%s can return Ok without walking the maps" % m, where=where(f))
         tops = prog.find(name=m, self_adt="abyssiniandb::filedb::FileDb")
         ok = len(tops) == 1 and bool(calls_to(prog, tops[0], target_fn=f)) and \
             not tops[0].success_reach_return(0, [b for b, _ in calls_to(prog, tops[0], target_fn=f)])
         ctx.check(ok, "db-sync-method", m + ":FileDb", "FileDb::%s does not always call FileDbInner::%s" % (m, m))
+
+
+def _visits_every_map(ctx, prog, ap, cb_sites, site_flds):
+    from .util import enum_switches
+    sw = enum_switches(prog, ap)
+    n = 0
+    for b, t in cb_sites:
+        cyc = {x for x in ap.reachable_ok(ap.normal_succs(b)) if b in ap.reachable_ok(ap.normal_succs(x))} | {b}
+        if b not in ap.reachable_ok(ap.normal_succs(b)):
+            continue        # not in a loop (a single map): nothing to skip
+        heads = [(hb, ht) for hb, ht in ap.calls() if hb in cyc and (ht.get("callee") or "").endswith("Iterator::next")]
+        exits = [s_ for s_ in sw if s_["block"] in cyc and s_["src"] and all(o.kind == "call" and o.block in {hb for hb, _ in heads} for o in s_["src"])]
+        inst = "+".join(sorted(site_flds.get(b) or ())) or "loop"
+        if not ctx.check(len(heads) == 1 and len(exits) == 1, "db-sync-visits-every-map", inst + ":shape",
+                         "cannot find the single iterator step / end-of-iteration test of the loop that syncs the maps of one registry", where=where(ap, b)):
+            continue
+        n += 1
+        hb = heads[0][0]
+        ex = exits[0]
+        # a round that comes back to the iterator step has invoked the callback
+        ctx.check(hb not in ap.reachable_ok(ap.normal_succs(hb), avoid={b}), "db-sync-visits-every-map", inst + ":every-round",
+                  "a map can be skipped: the loop can go round without invoking the sync callback", where=where(ap, hb))
+        # the only successful way out of the loop is the iterator's None
+        none_tgts = {tgt for v, tgt in ex["targets"].items() if v == 0} | ({ex["otherwise"]} if 0 not in ex["targets"] and ex["otherwise"] is not None else set())
+        bad = []
+        for x in cyc:
+            for y in ap.normal_succs(x):
+                if y in cyc or (x == ex["block"] and y in none_tgts):
+                    continue
+                if ap.success_reach_return(y, ()):
+                    bad.append((x, y))
+        ctx.check(not bad, "db-sync-visits-every-map", inst + ":no-early-exit",
+                  "the walk over the registered maps can end with Ok before every map was synced (exit from inside the loop body)",
+                  where=where(ap, bad[0][0]) if bad else where(ap))
+    ctx.floor("db-sync-visits-every-map", "registry loops checked", n, 4)
 
 
 def _fields_read(fn):
